@@ -79,7 +79,7 @@ Proof.
 Qed.
 
 Lemma fb_append_spec b s : fb_inv b ->
-  exists b', fb_append b s = Ok b' /\ fb_inv b' /\ fb_abs b' = fb_abs b ++ s /\
+  exists b', fb_append false b s = Ok b' /\ fb_inv b' /\ fb_abs b' = fb_abs b ++ s /\
              fb_kind b' = fb_kind b /\ f_pos (fb_file b') = f_pos (fb_file b) /\
              f_content (fb_file b') = f_content (fb_file b) ++ s /\
              fb_remain b' = fb_remain b + lenZ s.
@@ -139,3 +139,7 @@ Lemma fb_skip_err b n : fb_remain b < Z.of_N n -> fb_skip b n = Exn ValueErrorSk
 Proof.
   intro H. unfold fb_skip. destruct (fb_remain b <? Z.of_N n) eqn:E; [reflexivity | lia].
 Qed.
+
+(* file.write(s) raising inside append: the finally block seeks back, the buffer object is untouched *)
+Lemma fb_append_fails b s : f_closed (fb_file b) = false -> fb_append true b s = Exn OSFault.
+Proof. intro H. unfold fb_append. now rewrite H. Qed.
